@@ -213,7 +213,9 @@ fn c02_one(spec: &Spec, bytes: &[u8], p: &Progress, sub: usize, label: &str) -> 
 	}
 	let Some(reference) = reference(&game) else { return Holds };
 	if variant == "asis" && reference != bytes {
-		return Holds; // C01's business
+		// the property is about the ORIGINAL bytes: when the game as parsed does not serialise to them, the game that went
+		// through the .slpp cannot either (C01 fails on the same input, and for the same reason)
+		return v(label, format!("the parsed game does not serialise to the original .slp ({}), so the game read back from its .slpp cannot: {}", if reference.len() == bytes.len() { "same length" } else { "different length" }, first_diff(&reference, bytes)));
 	}
 	let (want_hash, want_quirks, zero) = (game.hash.clone(), format!("{:?}", game.quirks), game.frames.len() == 0);
 	let Some(out) = tri!(slpp_write(label, game, comp, spec.v2())) else { return Holds };
